@@ -3,6 +3,7 @@ from ..core.sym import evaluate, strip_sites
 from ..core.terms import show, subterms
 from ..core import bytesnf as B
 from .common import where
+from . import flow as _F15
 from . import codecs as C
 
 EXPLANATION = (
@@ -68,6 +69,45 @@ def _hr_branches(P, f):
     return hr, binr
 
 
+def _arm_value_kinds(P, f):
+    """({kinds written/read in the human-readable arm}, {.. in the binary arm}) with kinds in {"str", "u8", "other"}."""
+    ev = evaluate(f)
+    sw = None
+    for b, d in ev.switch.items():
+        if any(s.op == "call" and B.cname(s) in ("Serializer::is_human_readable", "Deserializer::is_human_readable") for s in subterms(d)):
+            sw = b
+    if sw is None:
+        return None
+    t = f.blocks[sw]["term"]
+    false_t = [tg for v, tg in t["arms"] if v == 0]
+    true_t = t["otherwise"]
+    rt = f.cfg.reach_from(true_t)
+    rf = f.cfg.reach_from(false_t[0]) if false_t else set()
+    out = (set(), set())
+    for bb, tt in f.calls():
+        if bb in rt and bb not in rf:
+            side = 0
+        elif bb in rf and bb not in rt:
+            side = 1
+        else:
+            continue
+        c = tt.get("callee") or {}
+        nm, tr = c.get("name"), c.get("trait")
+        sty = str(c.get("self_ty") or "").replace("&", "").replace("'de ", "").strip()
+        kind = None
+        if nm in ("serialize_str", "collect_str", "deserialize_str", "deserialize_string"):
+            kind = "str"
+        elif nm in ("serialize_u8", "deserialize_u8"):
+            kind = "u8"
+        elif (tr == "Serialize" and nm == "serialize") or (tr == "Deserialize" and nm == "deserialize"):
+            kind = "str" if sty in ("String", "str", "Cow<str>", "std::string::String") or sty.startswith("Cow<") else ("u8" if sty == "u8" else "other")
+        elif nm and (nm.startswith("serialize_") or nm.startswith("deserialize_")) and tr in ("Serializer", "Deserializer"):
+            kind = "other"
+        if kind:
+            out[side].add(kind)
+    return out
+
+
 def check_handwritten_serde(ctx, P, rule="E9.handserde"):
     pairs = [
         ("<Bls12381 as Serialize>::serialize", "<Bls12381 as Deserialize<'de>>::deserialize", ("Serializer::serialize_str", "Deserialize::deserialize"), ("Serializer::serialize_u8", "Deserialize::deserialize")),
@@ -86,6 +126,13 @@ def check_handwritten_serde(ctx, P, rule="E9.handserde"):
         fam = lambda want, got: want in got or (want.startswith("hex::") and any(x.startswith("hex::") for x in got))
         ok_hr = fam(hr_want[0], sb[0]) and fam(hr_want[1], db[0])
         ok_bin = bin_want[0] in sb[1] and bin_want[1] in db[1]
+        if not (ok_hr and ok_bin) and "BigArray" not in sk:
+            # the tag enums: what matters is WHAT is written and read in each form - a string in the text form, a u8 in the
+            # binary form, on both sides (however it is spelled: serialize_str, String::serialize, parse(), map(..))
+            sk_, dk_ = _arm_value_kinds(P, sf), _arm_value_kinds(P, df)
+            if sk_ is not None and dk_ is not None:
+                ok_hr = sk_[0] == {"str"} and dk_[0] == {"str"}
+                ok_bin = sk_[1] == {"u8"} and dk_[1] == {"u8"}
         ctx.ob(rule, sk.split(" as ")[0].lstrip("<"), ok_hr and ok_bin, "human-readable: %s <-> %s ; binary: %s <-> %s" % ([x for x in sb[0] if "is_human" not in x][:3], [x for x in db[0] if "is_human" not in x][:3], sb[1][:3], db[1][:3]), where=where(sf))
         # the scalar types used in the binary branch agree (u8 <-> u8, String <-> str)
     # deserialize types: the type argument of Deserialize::deserialize in each arm
@@ -102,7 +149,47 @@ def check_handwritten_serde(ctx, P, rule="E9.handserde"):
         # ... or the crate's own `u8::from(scheme)` (its table is compared with the reader's by the tag-table rule)
         casts += [s for s in subterms(ev.ret) if s.op == "call" and B.cname(s) in ("From::from", "Into::into") and tuple(s.a[0][1][:2]) in (("u8", "SignatureSchemes"), ("SignatureSchemes", "u8")) and "<u8 as From<SignatureSchemes>>::from" in P.fns]
         tos = [s for s in ev.sites.values() if s.callee[0] == "ToString::to_string"]
-        ctx.ob(rule, "SignatureSchemes/forms", bool(casts) and bool(tos), "text form = to_string() (Display table), binary form = `as u8` (declared discriminants) - both covered by the tag-table rule", where=where(sf))
+        # `format!("{}", self)` / `write!(.., "{}", self)`: the text is produced by the value's own Display as well
+        tos += [s for s in ev.sites.values() if s.callee[0].endswith("::new_display") and s.args and _F15.projection_root(strip_sites(s.args[0])) is not None and _F15.projection_root(strip_sites(s.args[0]))[0].a[1] == "self"]
+        sem = _forms_concrete(P, sf)
+        if sem is not None:
+            ctx.ob(rule, "SignatureSchemes/forms", sem[0], "text form = the Display string of the variant, binary form = the byte the u8 reader maps back to it (%s)" % sem[1], where=where(sf))
+        else:
+            ctx.ob(rule, "SignatureSchemes/forms", bool(casts) and bool(tos), "text form = to_string() (Display table), binary form = `as u8` (declared discriminants) - both covered by the tag-table rule", where=where(sf))
+
+
+def _forms_concrete(P, sf, adt="SignatureSchemes"):
+    """Walk the hand-written serializer for every variant in both forms (core/cinterp.py): (ok, detail) or None when the
+    function uses something the interpreter does not know."""
+    from ..core import cinterp as CI
+    from ..core import ceval as CE
+    from . import codecs as C_
+
+    disp = P.fns.get("<%s as Display>::fmt" % adt)
+    rd = P.fns.get("<%s as From<u8>>::from" % adt) or P.fns.get("<%s as TryFrom<u8>>::try_from" % adt)
+    if disp is None or rd is None:
+        return None
+    bad = []
+    try:
+        for v in P.adts[adt]["variants"]:
+            val = ("adt", adt, v["name"], ())
+            want = CI.run_fn(P, disp, [val, ("adt", "Formatter", "Formatter", ())])[1]
+            for hr in (True, False):
+                r = CI.Run(P)
+                r.human_readable = hr
+                r.run(sf, [val, ("adt", "Serializer", "Serializer", ())])
+                if len(r.out) != 1:
+                    return None
+                if hr:
+                    if [r.out[0]] != want:
+                        bad.append("%s text %r vs Display %r" % (v["name"], r.out[0], want))
+                else:
+                    back = CE.result_variant(CI.run_fn(P, rd, [r.out[0]])[0])
+                    if not isinstance(r.out[0], int) or back != v["name"]:
+                        bad.append("%s binary %r reads back as %r" % (v["name"], r.out[0], back))
+    except Exception:
+        return None
+    return (not bad, "; ".join(bad) if bad else "all %d variants" % len(P.adts[adt]["variants"]))
 
 
 def check_enum_key_wrapper(ctx, P, rule="E9.keywrapper"):
